@@ -11,6 +11,8 @@ VERIF = os.path.dirname(os.path.dirname(os.path.abspath(__file__)))
 def run_one(name, checks, tier, seed):
     d = os.path.join(VERIF, 'seeded', name)
     meta = json.load(open(os.path.join(d, 'meta.json')))
+    if meta.get('status') == 'rejected' and not checks:
+        return name, {}
     checks = checks or meta.get('checks') or [meta['property']]
     base = tempfile.mkdtemp(prefix='sens-%s-' % name)
     res = {}
